@@ -214,12 +214,14 @@ Record SP := mkSP {
      if rows.end + pssm.rows() - 1 > seq.matrix().rows() { panic! }   (commit 38882ad;
         ranged = false: the wrappers before that commit)
      scores.resize(rows.len(), ..) *)
-Definition score_guard (ranged : bool) (p : SP) (body : list access) : res kernel_run :=
+(* (the body is a thunk so that the extracted, strict OCaml code does not build the footprint
+   of a call that panics or returns early) *)
+Definition score_guard (ranged : bool) (p : SP) (body : unit -> list access) : res kernel_run :=
   if pM p =? 0 then Panic 2
   else if pwrap p <? pM p - 1 then Panic 3
   else if (pL p <? pM p) || (pb p <=? pa p) then Ok Skipped
   else if ranged && (pSR p <? pb p + pM p - 1) then Panic 4
-  else Ok (Entered body).
+  else Ok (Entered (body tt)).
 
 (* `for i in rows { seqptr = seq.matrix()[i].as_ptr(); pssmptr = pssm[0].as_ptr();
       for _ in 0..pssm.rows() { _mm256_load_si256(seqptr); _mm256_load_ps(pssmptr);
@@ -276,16 +278,16 @@ Definition ext_score (es : Z) (p : SP) (b : nat) : Z :=
 
 (* Avx2::score_f32_rows_into_permute starts with `assert!(A::K::USIZE <= 8)` *)
 Definition wrap_score_f32_avx2_permute (ranged : bool) (p : SP) : res kernel_run :=
-  if 8 <? pK p then Panic 5 else score_guard ranged p (fp_score_f32_avx2_permute p).
+  if 8 <? pK p then Panic 5 else score_guard ranged p (fun _ => fp_score_f32_avx2_permute p).
 Definition wrap_score_f32_avx2_gather (ranged : bool) (p : SP) : res kernel_run :=
-  score_guard ranged p (fp_score_f32_avx2_gather p).
+  score_guard ranged p (fun _ => fp_score_f32_avx2_gather p).
 (* Avx2::score_f32_rows_into: `if K <= 8 { permute } else { gather }` *)
 Definition wrap_score_f32_avx2 (ranged : bool) (p : SP) : res kernel_run :=
   if pK p <=? 8 then wrap_score_f32_avx2_permute ranged p else wrap_score_f32_avx2_gather ranged p.
 Definition wrap_score_u8_avx2 (ranged : bool) (p : SP) : res kernel_run :=
-  score_guard ranged p (fp_score_u8_avx2_shuffle p).
+  score_guard ranged p (fun _ => fp_score_u8_avx2_shuffle p).
 Definition wrap_score_sse2 (ranged : bool) (C : Z) (p : SP) : res kernel_run :=
-  score_guard ranged p (fp_score_sse2 C p).
+  score_guard ranged p (fun _ => fp_score_sse2 C p).
 
 (* default `Score::score_rows_into` (safe code): no wrap check, every access is a checked index:
    `seq.matrix()[seq_row + j][col]` panics when seq_row + j >= rows *)
